@@ -44,3 +44,101 @@ pub fn run(tier: &str, seed: u64, out: &mut Out) {
         out.case(&["analyse", &dump], &format!("OK|{}", enc(a)));
     }
 }
+
+// ---------------------------------------------------------------- behavioural scope resolution (node)
+
+use crate::gen::*;
+
+/// nested wx:for / slot-value / wxs scopes with colliding names; the body is one text binding.
+/// The reference is a JS program that resolves names lexically (innermost scope, then data).
+pub fn run_val(tier: &str, seed: u64, out: &mut Out) {
+    let mut rng = Rng::new(seed ^ 0x5c0fe);
+    let n = if tier == "thorough" { 4000 } else { 500 };
+    let names = ["item", "index", "a", "b", "l", "o", "x", "m"];
+    for i in 0..n {
+        let depth = 1 + rng.below(3);
+        // scope stack for the reference: (name, js variable)
+        let mut stack: Vec<(String, String)> = vec![];
+        let with_module = rng.chance(1, 3);
+        let mut head = String::new();
+        let mut ref_head = String::from("(() => { const out = [];\n");
+        if with_module {
+            let m = rng.pick(&["m", "item", "a"]).to_string();
+            head.push_str(&format!("<wxs module=\"{}\">exports.sub = [{{sub:[1,2]}}, 'x']; exports.a = 'MOD'</wxs>", m));
+            ref_head.push_str("const MOD = {sub: [{sub:[1,2]}, 'x'], a: 'MOD'};\n");
+            stack.push((m, "MOD".into()));
+        }
+        let mut open = String::new();
+        let mut close = String::new();
+        let mut ref_open = String::new();
+        let mut ref_close = String::new();
+        for d in 0..depth {
+            let idents: Vec<String> = DATA_FIELDS.iter().map(|s| s.to_string()).chain(stack.iter().map(|x| x.0.clone())).collect();
+            // the list expression is resolved in the scopes outside this loop
+            let list = match rng.below(4) {
+                0 => GE::Ident("l".into()),
+                1 if !stack.is_empty() => GE::Member(Box::new(GE::Ident(stack[rng.below(stack.len())].0.clone())), "sub".into()),
+                2 => GE::Arr(vec![GA::Item(GE::Ident(rng.pick(&idents).clone())), GA::Item(GE::Num("2".into()))]),
+                _ => GE::Ident(rng.pick(&idents).clone()),
+            };
+            let resolve = |name: &str, stack: &Vec<(String, String)>| -> Option<String> {
+                stack.iter().rev().find(|x| x.0 == name).map(|x| x.1.clone())
+            };
+            let st = stack.clone();
+            let list_ref = list.reference_js(&|n| resolve(n, &st));
+            let mut no_extra = || false;
+            let list_wxml = list.wxml(&mut no_extra);
+            let item = if rng.chance(1, 2) { "item".to_string() } else { rng.pick(&names).to_string() };
+            let index = if rng.chance(1, 2) { "index".to_string() } else { rng.pick(&names).to_string() };
+            let mut attrs = format!(" wx:for=\"{{{{ {} }}}}\"", list_wxml);
+            if item != "item" || rng.chance(1, 4) {
+                attrs.push_str(&format!(" wx:for-item=\"{}\"", item));
+            }
+            if index != "index" || rng.chance(1, 4) {
+                attrs.push_str(&format!(" wx:for-index=\"{}\"", index));
+            }
+            let tag = if rng.chance(1, 2) { "block" } else { "v" };
+            open.push_str(&format!("<{}{}>", tag, attrs));
+            close = format!("</{}>{}", tag, close);
+            ref_open.push_str(&format!("for (const [v{d}, i{d}] of ITEMS({})) {{\n", list_ref, d = d));
+            ref_close.push_str("}\n");
+            // item first, then index
+            stack.push((item, format!("v{}", d)));
+            stack.push((index, format!("i{}", d)));
+        }
+        let idents: Vec<String> = DATA_FIELDS.iter().map(|s| s.to_string()).chain(stack.iter().map(|x| x.0.clone())).chain(stack.iter().map(|x| x.0.clone())).collect();
+        let e = {
+            let mut g = ExprGen { rng: &mut rng, idents, allow_instanceof: false };
+            g.gen(1 + (i % 3))
+        };
+        let st = stack.clone();
+        let e_ref = e.reference_js(&|n| st.iter().rev().find(|x| x.0 == n).map(|x| x.1.clone()));
+        let mut no_extra = || false;
+        let e_wxml = e.wxml(&mut no_extra);
+        // a sibling after the loops must not see the loop scopes (only the module)
+        let after = GE::Ident(if depth > 0 { stack.last().unwrap().0.clone() } else { "a".into() });
+        let st_after: Vec<(String, String)> = stack.iter().take(if with_module { 1 } else { 0 }).cloned().collect();
+        let after_ref = after.reference_js(&|n| st_after.iter().rev().find(|x| x.0 == n).map(|x| x.1.clone()));
+        let src = format!("{}{}T{{{{ {} }}}}{}<w/>A{{{{ {} }}}}", head, open, e_wxml, close, after.wxml(&mut no_extra));
+        let reference = format!("{}{}out.push('T' + Y({}));\n{}out.push('A' + Y({}));\nreturn out }})()", ref_head, ref_open, e_ref, ref_close, after_ref);
+        let mut g = TmplGroup::new();
+        let diags = g.add_tmpl("p", &src);
+        let max_level = diags.iter().map(|d| d.kind.level() as u8).max().unwrap_or(0);
+        let bundle = g.get_tmpl_gen_object_groups().unwrap_or_default();
+        // data with fields named like the scope variables
+        let mut datas = vec![];
+        for _ in 0..3 {
+            let mut d = random_data(&mut rng);
+            let o = d.get_mut("$o").unwrap().as_object_mut().unwrap();
+            o.insert("l".into(), serde_json::json!({"$a": [{"$o": {"sub": {"$a": ["p", "q"]}, "a": 1}}, {"$o": {"sub": {"$o": {"k": "kv"}}, "a": 2}}]}));
+            o.insert("item".into(), serde_json::json!("DATA-item"));
+            o.insert("index".into(), serde_json::json!("DATA-index"));
+            o.insert("x".into(), serde_json::json!({"$o": {"sub": {"$a": [7]}}}));
+            o.insert("m".into(), serde_json::json!("DATA-m"));
+            datas.push(d);
+        }
+        let job = serde_json::json!({"kind": "scopeval", "id": i, "src": src, "ref": reference, "bundle": bundle,
+                                     "max_level": max_level, "datas": datas, "depth": depth, "module": with_module});
+        out.raw(&job.to_string());
+    }
+}
